@@ -68,6 +68,16 @@ func directed(startIdx int) []*Case {
 				Utxos: []Utxo{{k, 0, coin}}, Dests: []Dest{{Kind: "f-p2pkh", Key: 1, Amount: coin / 2}}, Chain: j == 0})
 		}
 	}
+	// destinations and change addresses of future witness versions (Bech32m, versions 2, 15, 16,
+	// program lengths 2, 20, 32, 40): the output script is OP_n <program>, OP_16 = 0x60
+	for i, k := range kinds {
+		for j, fk := range []string{"f-wit2", "f-wit15", "f-wit16-short", "f-wit16-long"} {
+			add(&Case{Family: "directed-future-witness", Type: 3 + (i+j)%2, AType: atypeOfKind[k], Testnet: (i+j)%2 == 1,
+				Utxos: []Utxo{{k, 0, coin}}, Dests: []Dest{{Kind: fk, Key: 1, Amount: coin / 4}, {Kind: "f-p2pkh", Key: 2, Amount: 1000}}})
+			add(&Case{Family: "directed-future-witness", Type: 3 + (i+j)%2, AType: atypeOfKind[k], Testnet: (i+j)%2 == 0,
+				Utxos: []Utxo{{k, 0, coin}}, Dests: []Dest{{Kind: "f-p2pkh", Key: 2, Amount: coin / 4}}, Change: fk, ChKey: 3})
+		}
+	}
 	// an altered transaction file in the balance folder (stored under the id of the real one,
 	// value raised), in the plain and in the witness serialisation, alone and behind an honest file
 	for i, k := range kinds {
